@@ -614,3 +614,16 @@ package notify
 //@   at call Template).Data assert [from-the-flush_s-context-and-the-whole-batch] arg0 == tmpl && arg1 == ret("notify.ReceiverName$") && arg2 == ret("notify.GroupLabels$") && arg3 == ret("notify.RouteLabels$") && arg5 == alerts
 //@   ensures [built-once-and-returned] count("Template).Data") == 1 && result == ret("Template).Data")
 //@   noeffect notify.ReceiverName$ notify.GroupLabels$ notify.RouteLabels$ notify.NotificationReason$ Template).Data MarkRouteLabelsRendered
+
+// ---- C20 / C05: the first stage of every pipeline: with a cluster it waits until the peer is ready and passes the
+// batch on unchanged; an abandoned wait is an error (the flush fails, nothing is forgotten); without a cluster it is
+// the identity.
+//@ func (*ClusterGossipSettleStage).Exec
+//@   props C20 C05
+//@   requires n != nil
+//@   at call notify.Peer).WaitReady assert [waits-on-the-flush_s-context] arg1 == ctx
+//@   ensures [an-abandoned-wait-fails-the-flush] called("notify.Peer).WaitReady") && ret("notify.Peer).WaitReady") != nil ==> result2 == ret("notify.Peer).WaitReady") && result1 == nil
+//@   ensures [otherwise-the-batch-is-passed-on-unchanged] !(called("notify.Peer).WaitReady") && ret("notify.Peer).WaitReady") != nil) ==> result2 == nil && result1 == alerts && result0 == ctx
+//@   ensures [waits-exactly-when-clustered] called("notify.Peer).WaitReady") == (n.peer != nil)
+//@   noeffect notify.Peer).WaitReady
+//@   assigns nothing
